@@ -4,8 +4,6 @@
 
 include!("../../generated/generated_gpos.rs");
 
-use std::collections::HashSet;
-
 //use super::layout::value_record::ValueRecord;
 use super::{
     layout::{
@@ -194,11 +192,13 @@ impl MarkLigPosFormat1 {
 
 impl MarkArray {
     fn class_count(&self) -> u16 {
+        // classes are numbered from zero and a class may be unused, so this
+        // is the highest class in use plus one (not the number of distinct classes)
         self.mark_records
             .iter()
             .map(|rec| rec.mark_class)
-            .collect::<HashSet<_>>()
-            .len() as u16
+            .max()
+            .map_or(0, |max| max.saturating_add(1))
     }
 }
 
